@@ -42,6 +42,8 @@ enum
     L_QUOTIENT_OVERFLOW,
     L_TINY_T,
     L_UNNORMALISED,
+    L_ZERO_T_OUTSIDE, // origin outside a slab, heading in, and the quotient (face - pos) / dir rounds to exactly 0
+    L_NEAR_MISS,      // the line passes the box at a distance between 2^-48 and 2^-8 of the box size
     L_NLABELS
 };
 #define C14_LABELS                                                                                                                            \
@@ -49,7 +51,7 @@ enum
         "ray_front_face_min_x", "ray_front_face_max_x", "ray_front_face_min_y", "ray_front_face_max_y", "ray_front_face_min_z", "ray_front_face_max_z",           \
         "line_entry_face_min_x", "line_entry_face_max_x", "line_entry_face_min_y", "line_entry_face_max_y", "line_entry_face_min_z", "line_entry_face_max_z",     \
         "line_exit_face_min_x", "line_exit_face_max_x", "line_exit_face_min_y", "line_exit_face_max_y", "line_exit_face_min_z", "line_exit_face_max_z",           \
-        "boolean_unstable_skipped", "some_quotient_exceeds_TMAX", "denormal_or_zero_t", "direction_not_unit_length"
+        "boolean_unstable_skipped", "some_quotient_exceeds_TMAX", "denormal_or_zero_t", "direction_not_unit_length", "t_rounds_to_zero_origin_outside", "near_miss_or_near_hit_below_2^-8"
 #define C14_FACE_LABELS                                                                                                                       \
     "ray_front_face_min_x", "ray_front_face_max_x", "ray_front_face_min_y", "ray_front_face_max_y", "ray_front_face_min_z", "ray_front_face_max_z",               \
         "line_entry_face_min_x", "line_entry_face_max_x", "line_entry_face_min_y", "line_entry_face_max_y", "line_entry_face_min_z", "line_entry_face_max_z",     \
@@ -516,6 +518,19 @@ template <class T> static void float_case (vp::Ctx& c, const Box<Vec3<T>>& b, co
         if (qmin (q1, q2) < (quad) L::min ()) tinyt = true;
     }
     unnorm = qabs (len2 - 1) > 1e-3;
+    for (int i = 0; i < 3; ++i)
+    {
+        if (r.dir[i] == 0) continue;
+        bool below = r.pos[i] < b.min[i] && r.dir[i] > 0, above = r.pos[i] > b.max[i] && r.dir[i] < 0;
+        if (!below && !above) continue;
+        T dq = below ? b.min[i] - r.pos[i] : b.max[i] - r.pos[i];
+        T tq = dq / r.dir[i];
+        if (tq == 0)
+        {
+            c.label (L_ZERO_T_OUTSIDE);
+            c.nt ();
+        }
+    }
     if (ovf) c.label (L_QUOTIENT_OVERFLOW);
     if (tinyt) c.label (L_TINY_T);
     if (par) c.label (L_AXIS_PARALLEL);
@@ -815,5 +830,144 @@ VP_RANDOM (extreme, 1000000, 20000000, "float or double; boxes with volume and m
 VP_LABELS (extreme, C14_LABELS)
 VP_REQUIRE_LABELS (extreme, "ray_hit", "ray_miss", "line_miss", "origin_strictly_inside", "origin_on_surface", "axis_parallel", "some_quotient_exceeds_TMAX", "denormal_or_zero_t", "direction_not_unit_length", C14_FACE_LABELS)
 VP_FUZZABLE (extreme)
+
+// ---------------------------------------------------------------------------------------------------------
+// close calls: (A) origin a few ulps (or a few denormals) outside / inside / on a face, any speed - the entry parameter
+// is denormal or rounds to exactly zero while the origin is still outside; (B) lines aimed past an edge or corner at a
+// distance 2^-k of the box size, k up to 48 (double) / 20 (float): near misses and near hits far below what the
+// `aimed` class produces, still far above the oracle's 16 eps instability band for most k.
+
+template <class T> static T step_ulps (T v, int n)
+{
+    const T inf = std::numeric_limits<T>::infinity ();
+    for (int j = 0; j < (n < 0 ? -n : n); ++j)
+        v = std::nextafter (v, n < 0 ? -inf : inf);
+    return v;
+}
+
+template <class T> static void close_case (vp::Ctx& c, const char* tn)
+{
+    typedef std::numeric_limits<T> L;
+    vp::Src&     s = c.s;
+    Box<Vec3<T>> b;
+    Line3<T>     r;
+    bool         zerobox = s.chance (64); // a face at coordinate 0: "a few ulps outside" means a few denormals
+    for (int i = 0; i < 3; ++i)
+    {
+        T a      = boxval<T> (s);
+        T e      = a + (T) std::fabs (boxval<T> (s)) + (T) 0.125;
+        b.min[i] = a;
+        b.max[i] = e;
+    }
+    if (zerobox)
+    {
+        int k = (int) s.below (3);
+        if (s.coin ())
+        {
+            b.max[k] = b.max[k] - b.min[k];
+            b.min[k] = 0;
+        }
+        else
+        {
+            b.min[k] = b.min[k] - b.max[k];
+            b.max[k] = 0;
+        }
+    }
+    bool modeA = s.coin ();
+    if (modeA)
+    {
+        int  ax  = (int) s.below (3);
+        bool top = s.coin ();
+        int  n   = (int) s.range (-2, 4); // > 0: outside by n ulps, 0: on the face, < 0: inside
+        for (int i = 0; i < 3; ++i)
+        {
+            T ext    = b.max[i] - b.min[i];
+            r.pos[i] = (T) ((double) b.min[i] + s.uniform (0.05, 0.95) * (double) ext);
+            r.dir[i] = extreme_comp<T> (s);
+        }
+        T face     = top ? b.max[ax] : b.min[ax];
+        r.pos[ax]  = step_ulps<T> (face, top ? n : -n);
+        T v        = extreme_comp<T> (s);
+        unsigned m = (unsigned) s.below (4);
+        if (v == 0 || m == 0) v = L::max ();
+        if (m == 1) v = (T) std::ldexp (1.0 + s.unit (), (int) s.range (L::max_exponent - 40, L::max_exponent - 1));
+        v         = std::fabs (v);
+        r.dir[ax] = top ? -v : v; // heading into the slab
+        if (s.chance (128))
+            for (int i = 0; i < 3; ++i)
+                if (i != ax) r.dir[i] = 0;
+        if (s.chance (16)) r.dir[ax] = -r.dir[ax];
+    }
+    else
+    {
+        // edge / corner point E, origin outside, direction towards E shifted outward (miss) or inward (hit) by 2^-k ext
+        int     nb    = 2 + (int) s.below (2);
+        int     first = (int) s.below (3);
+        Vec3<T> tgt;
+        int     kmax = sizeof (T) == 4 ? 20 : 48;
+        int     k    = (int) s.range (8, kmax);
+        bool    miss = s.coin ();
+        int     sgn[3];
+        for (int j = 0; j < 3; ++j)
+        {
+            int  i   = (first + j) % 3;
+            T    ext = b.max[i] - b.min[i];
+            bool hi  = s.coin ();
+            sgn[i]   = hi ? 1 : -1;
+            tgt[i]   = (T) ((double) b.min[i] + s.uniform (0.05, 0.95) * (double) ext);
+            if (j < nb) tgt[i] = hi ? b.max[i] : b.min[i];
+        }
+        double off[3] = { 0, 0, 0 };
+        {
+            int  i   = first;
+            double ext = (double) b.max[i] - (double) b.min[i];
+            off[i]   = (miss ? 1 : -1) * sgn[i] * std::ldexp (ext, -k);
+        }
+        // origin: outside in the second bounded axis' direction so that the line crosses the edge region transversally
+        for (int i = 0; i < 3; ++i)
+        {
+            T ext    = b.max[i] - b.min[i];
+            r.pos[i] = (T) ((double) b.min[i] + s.uniform (-1.5, 2.5) * (double) ext);
+        }
+        {
+            int i    = (first + 1) % 3;
+            T   ext  = b.max[i] - b.min[i];
+            r.pos[i] = sgn[i] > 0 ? b.max[i] + ext * (T) s.uniform (0.1, 3) : b.min[i] - ext * (T) s.uniform (0.1, 3);
+        }
+        double dd[3], len = 0;
+        for (int i = 0; i < 3; ++i)
+        {
+            dd[i] = ((double) tgt[i] + off[i]) - (double) r.pos[i];
+            len += dd[i] * dd[i];
+        }
+        len = std::sqrt (len);
+        if (!(len > 0))
+        {
+            dd[0] = len = 1;
+            dd[1] = dd[2] = 0;
+        }
+        double sc = 1;
+        if (s.chance (64)) sc = std::ldexp (1.0, (int) s.range (-8, 8));
+        if (s.chance (32)) sc = -sc;
+        for (int i = 0; i < 3; ++i)
+            r.dir[i] = (T) (dd[i] / len * sc);
+        c.label (L_NEAR_MISS);
+        c.nt ();
+    }
+    if (r.dir[0] == 0 && r.dir[1] == 0 && r.dir[2] == 0) r.dir[0] = 1;
+    VP_NOTE (c, tn << " " << caseStr (b, r) << (modeA ? " origin next to a face" : " aimed past an edge / corner"));
+    float_case<T> (c, b, r);
+}
+
+VP_RANDOM (close_calls, 1000000, 20000000, "float or double; boxes with volume (1/4 with a face at coordinate 0); (A) origin -2..4 ulps (denormals, for a face at 0) outside a face, other coordinates inside the slabs, direction component towards the face from {max, 2^(emax-40..emax), the `extreme` set}, other components from the `extreme` set or zero; (B) origin outside, direction towards an edge / corner point displaced outward or inward by 2^-k of the box size, k = 8..20 (float) / 8..48 (double); oracle as in `aimed`; non-trivial = as in `extreme`, or the entry quotient rounds to exactly 0 with the origin outside, or class (B)")
+{
+    if (c.s.coin ())
+        close_case<double> (c, "double");
+    else
+        close_case<float> (c, "float");
+}
+VP_LABELS (close_calls, C14_LABELS)
+VP_REQUIRE_LABELS (close_calls, "ray_hit", "ray_miss", "line_miss", "origin_on_surface", "axis_parallel", "denormal_or_zero_t", "t_rounds_to_zero_origin_outside", "near_miss_or_near_hit_below_2^-8", "boolean_unstable_skipped")
+VP_FUZZABLE (close_calls)
 
 VP_MAIN ("C14")
